@@ -441,33 +441,89 @@ def _hdiv_rule(model, rep, els):
     R3 = "C03-R3"
     c = model.cls("skfem.element.element_hdiv", "ElementHdiv")
     fn = c.methods["orient"]
-    asg = [n for n in walk_no_nested(fn.node) if isinstance(n, ast.Assign)
-           and src(n.targets[0]) == "ori"]
-    ok = False
-    detail = "orientation expression not found"
-    if len(asg) == 1:
-        v = asg[0].value
-        s = src(v).replace(" ", "")
-        import re
-        m = re.match(r"-1\+2\*\(mapping\.mesh\.f2t\[(\d),mapping\.mesh\.t2f"
-                     r"\[ix\]\]==np\.arange\(mapping\.mesh\.t\.shape\[1\]\)"
-                     r"\)$", s)
-        m2 = re.match(r"1-2\*\(mapping\.mesh\.f2t\[(\d),mapping\.mesh\.t2f"
-                      r"\[ix\]\]!=np\.arange\(mapping\.mesh\.t\.shape\[1\]\)"
-                      r"\)$", s)
-        ok = bool(m or m2)
-        detail = src(v)
-    if ok:
+    # the orientation depends on the mesh only through "is this cell the
+    # first or the second neighbour of its local facet": interpreted on all
+    # two-cell configurations (shared facet in slot a of cell 0 and slot b
+    # of cell 1, either cell listed first), whole mesh and subsets
+    from .. import nlite
+    from ..nlite import NArr
+    NF = 3
+    bad = None
+    ncfg = 0
+    for a in range(NF):
+        for b in range(NF):
+            for first in (0, 1):
+                ncfg += 1
+                # facet 0 is shared; the others are boundary facets
+                t2f = [[0, 0] for _ in range(NF)]
+                nxt = 1
+                for c_, slot in ((0, a), (1, b)):
+                    for k in range(NF):
+                        if k == slot:
+                            t2f[k][c_] = 0
+                        else:
+                            t2f[k][c_] = nxt
+                            nxt += 1
+                f2t = [[0] * nxt, [-1] * nxt]
+                f2t[0][0], f2t[1][0] = first, 1 - first
+                for c_ in (0, 1):
+                    for k in range(NF):
+                        f = t2f[k][c_]
+                        if f != 0:
+                            f2t[0][f] = c_
+                mesh = Obj(None, {"t": NArr([[0, 1], [1, 2], [2, 3]]),
+                                  "t2f": NArr(t2f), "f2t": NArr(f2t)})
+                mapping = Obj(None, {"mesh": mesh})
+                obj = Obj(c, {"facet_dofs": 2,
+                              "refdom": Obj(None, {"nfacets": NF})})
+                res = {}
+                for slot in range(NF):
+                    for row in range(2):
+                        i = 2 * slot + row
+                        try:
+                            r = Interp(model, call_hook=nlite.hook).call(
+                                fn, [mapping, i], {}, self_obj=obj)
+                        except (Unsupported, Raised) as ex:
+                            raise AnalysisError(f"ElementHdiv.orient: {ex}")
+                        res[i] = [int(x) for x in r.data]
+                sa = {res[2 * a + row][0] for row in range(2)}
+                sb = {res[2 * b + row][1] for row in range(2)}
+                allpm = all(v in (1, -1) for vs in res.values() for v in vs)
+                if not (allpm and len(sa) == 1 and len(sb) == 1
+                        and sa != sb) and bad is None:
+                    bad = (a, b, first, sorted(sa), sorted(sb))
+                # a subset of cells gets the same signs, in subset order
+                try:
+                    r = Interp(model, call_hook=nlite.hook).call(
+                        fn, [mapping, 2 * a], {"tind": NArr([1, 0])},
+                        self_obj=obj)
+                except (Unsupported, Raised) as ex:
+                    raise AnalysisError(f"ElementHdiv.orient(tind): {ex}")
+                if [int(x) for x in r.data] != res[2 * a][::-1] and \
+                        bad is None:
+                    bad = (a, b, first, "subset", [int(x) for x in r.data])
+                # interior functions: +1
+                try:
+                    r = Interp(model, call_hook=nlite.hook).call(
+                        fn, [mapping, 2 * NF], {}, self_obj=obj)
+                except (Unsupported, Raised) as ex:
+                    raise AnalysisError(f"ElementHdiv.orient(interior): "
+                                        f"{ex}")
+                if [int(x) for x in r.data] != [1, 1] and bad is None:
+                    bad = (a, b, first, "interior", [int(x) for x in r.data])
+    if bad is None:
         rep.ok(R3, "ElementHdiv.orient:indicator",
-               "+1 iff the cell is the neighbour stored in one fixed row of "
-               "f2t for its local facet ix, -1 otherwise: the two sides get "
-               "opposite signs")
+               f"{ncfg} two-cell configurations: the two cells at a shared "
+               f"facet get opposite signs +-1 for every function on that "
+               f"facet, subsets follow, interior functions get +1")
     else:
         rep.fail(R3, c.path, "ElementHdiv.orient",
                  "ElementHdiv.orient:indicator",
-                 f"orientation '{detail}' is not the +-1 indicator of being "
-                 f"the neighbour in a fixed row of f2t: the two cells at a "
-                 f"facet no longer get opposite signs", fn.lineno)
+                 f"shared facet in slot {bad[0]} of cell 0 and slot {bad[1]} "
+                 f"of cell 1 (cell {bad[2]} listed first in f2t): signs "
+                 f"{bad[3]} / {bad[4]} - the two cells at a facet must get "
+                 f"opposite signs +-1 (interior functions +1, subsets in "
+                 f"subset order)", fn.lineno)
     # facet decoding agrees with the facet-major stacking for every H(div)
     # element
     dec = [n for n in walk_no_nested(fn.node) if isinstance(n, ast.Assign)
@@ -504,17 +560,6 @@ def _hdiv_rule(model, rep, els):
                      f"but it is attached to facet {bad[2]}", fn.lineno)
     if n_el < 5:
         raise AnalysisError(f"{n_el} H(div) elements found")
-    # interior branch returns ones
-    s = src(fn.node)
-    okint = "if ix >= self.refdom.nfacets:" in s and "np.ones(" in s
-    if okint:
-        rep.ok(R3, "ElementHdiv.orient:interior", "interior functions are "
-               "not oriented")
-    else:
-        rep.fail(R3, c.path, "ElementHdiv.orient",
-                 "ElementHdiv.orient:interior",
-                 "interior functions are given an orientation sign",
-                 fn.lineno)
 
 
 def run(model: Model, rep, tier: str) -> None:
@@ -619,6 +664,12 @@ MUTANTS = [
       "        elif i == 4 - 0:"), None),
 ]
 TWINS = [
+    ("H(div) orientation spelled with np.where",
+     ("skfem/element/element_hdiv.py",
+      "        ori = -1 + 2 * (mapping.mesh.f2t[0, mapping.mesh.t2f[ix]]\n"
+      "                        == np.arange(mapping.mesh.t.shape[1]))",
+      "        first = mapping.mesh.f2t[0, mapping.mesh.t2f[ix]]\n"
+      "        ori = 1 - 2 * (first != np.arange(mapping.mesh.t.shape[1]))")),
     ("adaptive refinement based on the helper with sorting restored",
      (_TRI, _RET, _RET.replace("            self,\n",
                                "            sorted_mesh,\n            "
